@@ -272,3 +272,55 @@ func TTUDefectModels() []Tagged {
 	}
 	return out
 }
+
+// InterlockModels: several interlocking tuple cycles - every relation of doc
+// (two or three) has a direct assignment whose list mixes a terminal type, its
+// own userset and the other relations' usersets in every order, optionally
+// with a TTU on itself or a neighbour.
+func InterlockModels() []Tagged {
+	var out []Tagged
+	term := map[string]string{"a": "group", "b": "user", "c": "user"}
+	lists := func(self string, others []string) [][]ref.Restriction {
+		t := ref.Restriction{Type: term[self]}
+		s := ref.Restriction{Type: "doc", Relation: self}
+		var ls [][]ref.Restriction
+		o := ref.Restriction{Type: "doc", Relation: others[0]}
+		ls = append(ls, []ref.Restriction{t, s, o}, []ref.Restriction{t, o, s}, []ref.Restriction{s, o, t}, []ref.Restriction{o, t}, []ref.Restriction{t, s})
+		if len(others) > 1 {
+			o2 := ref.Restriction{Type: "doc", Relation: others[1]}
+			ls = append(ls, []ref.Restriction{t, o, o2, s}, []ref.Restriction{o2, s, t})
+		}
+		return ls
+	}
+	rws := func(self string, others []string) []*ref.Rewrite {
+		return []*ref.Rewrite{ref.T(), ref.U(ref.T(), ref.TT(self, "p")), ref.U(ref.TT(others[0], "p"), ref.T())}
+	}
+	tag := func(n string, rw *ref.Rewrite, l []ref.Restriction) string { return fmt.Sprintf("%s: %s with %v", n, rw, l) }
+	// two relations
+	for _, la := range lists("a", []string{"b"}) {
+		for _, lb := range lists("b", []string{"a"}) {
+			for ia, ra := range rws("a", []string{"b"}) {
+				for ib, rb := range rws("b", []string{"a"}) {
+					if ia > 0 && ib > 0 && (len(la)+len(lb))%2 == 0 {
+						continue
+					}
+					m := GraphModel(map[string]RelSpec{"a": {ra, la, ""}, "b": {rb, lb, ""}}, "p:[doc]")
+					out = append(out, Tagged{Tag: "interlock: " + tag("a", ra, la) + " | " + tag("b", rb, lb), M: m})
+				}
+			}
+		}
+	}
+	// three relations, direct assignments only
+	for i, la := range lists("a", []string{"b", "c"}) {
+		for j, lb := range lists("b", []string{"c", "a"}) {
+			for k, lc := range lists("c", []string{"a", "b"}) {
+				if (i+j+k)%3 != 0 {
+					continue
+				}
+				m := GraphModel(map[string]RelSpec{"a": {ref.T(), la, ""}, "b": {ref.T(), lb, ""}, "c": {ref.T(), lc, ""}}, "p:[doc]")
+				out = append(out, Tagged{Tag: "interlock3: " + tag("a", ref.T(), la) + " | " + tag("b", ref.T(), lb) + " | " + tag("c", ref.T(), lc), M: m})
+			}
+		}
+	}
+	return out
+}
